@@ -11,6 +11,7 @@ exit 1  after a line  VIOLATION property=<id> replay=<path>
 exit 2  build failure / harness trouble / nondeterministic replay (never a violation)
 """
 import collections
+import hashlib
 import glob
 import json
 import os
@@ -232,6 +233,30 @@ def main():
                     ok = same = False
                 if ok:
                     break
+            if not ok:
+                # The minimised case was found and shrunk inside a worker process that had run
+                # other cases before. If the code under test keeps state across runs (a process-
+                # wide counter, a cache), the shrunk case may depend on that state. Try the
+                # unminimised cases that reported this violation, each in a fresh process, most
+                # operations first; one that fails the same way on its own is the replay file.
+                cands = [x for x in results if x.get("case") and any("%s|%s|%s" % (y["property"], y["rule"], y["sig"]) == sg for y in x.get("violations", []))]
+                cands.sort(key=lambda x: -len(x["case"].get("ops") or []))
+                for x in cands[:40]:
+                    rp2 = os.path.join(os.path.dirname(rp), "%s-%s-%s-unminimised.json" % (prop, x["seed"], hashlib.sha1(sg.encode()).hexdigest()[:12]))
+                    json.dump({"case": x["case"], "expect_sig": sg, "expect_trace_hash": x.get("trace_hash"), "original_seed": x["seed"],
+                               "violations": [y for y in x["violations"] if "%s|%s|%s" % (y["property"], y["rule"], y["sig"]) == sg],
+                               "note": "not minimised: the minimised case did not fail in a fresh process (the violation depends on state the process keeps across cases)"}, open(rp2, "w"), indent=1)
+                    env2 = dict(env, VERIF_REPLAY=rp2)
+                    subprocess.run([binp, "-test.run", "^TestSim$", "-test.timeout", "0"], env=env2, stdout=subprocess.DEVNULL, stderr=subprocess.DEVNULL, cwd=work)
+                    try:
+                        ro = json.load(open(outp))
+                    except Exception:
+                        ro = {}
+                    if ro.get("reproduced"):
+                        ok, same, rp, r = True, ro.get("same_trace"), rp2, x
+                        v = [y for y in x["violations"] if "%s|%s|%s" % (y["property"], y["rule"], y["sig"]) == sg][0]
+                        break
+                    os.unlink(rp2)
             if not ok:
                 trouble.append("replay of %s did not reproduce %s" % (rp, sg))
                 continue
